@@ -48,9 +48,12 @@ pub fn conv_case<T: Sc>(rng: &mut Rng, idx: usize) -> (FitCase<T>, Vec<T>, DMatr
     let phi = recipe.phi::<T>(&tr);
     let m = recipe.m();
     // one case in twelve has MANY right-hand sides (sizes next to plausible block widths)
-    let s = if rng.chance(0.085) {
+    // the FEATURES of a case (number of right-hand sides, constructor, weights) are cycled by the case
+    // index, not drawn: every combination - in particular weighted problems under the parallel
+    // constructors - occurs in every run; only the values are random
+    let s = if idx % 12 == 7 {
         *rng.pick(&[31usize, 33, 40, 65, 70])
-    } else if rng.chance(0.3) {
+    } else if idx % 2 == 1 {
         rng.range(2, 4)
     } else {
         1
@@ -68,15 +71,18 @@ pub fn conv_case<T: Sc>(rng: &mut Rng, idx: usize) -> (FitCase<T>, Vec<T>, DMatr
         }
         ctrue.set_column(c, &coef);
     }
-    let wkind = if rng.chance(0.3) { WKind::Positive } else { WKind::None };
+    let wkind = if (idx / 2) % 3 == 1 { WKind::Positive } else { WKind::None };
     let w = random_weights(rng, wkind, n, m).map(|w| w.iter().map(|v| T::of(*v)).collect());
     let init: Vec<T> = truth.iter().map(|v| T::of(v * (1.0 + rng.uniform(-0.03, 0.03)))).collect();
     let flavour = if s > 1 {
-        if rng.chance(0.25) { Flavour::MrhsPar } else { Flavour::Mrhs }
-    } else if rng.chance(0.15) {
-        Flavour::Mrhs
+        if (idx / 4) % 2 == 1 { Flavour::MrhsPar } else { Flavour::Mrhs }
     } else {
-        Flavour::New
+        match idx % 16 {
+            0 | 10 => Flavour::NewPar,
+            4 => Flavour::Mrhs,
+            8 => Flavour::MrhsPar,
+            _ => Flavour::New,
+        }
     };
     let base = StateCase {
         recipe,
